@@ -88,6 +88,9 @@ def run(ctx, deep=False):
         if hangs[0] >= 2:
             break
         one_os(nregs, ops)
+    for key, case, detail in L.os_predicate_checks(ns):
+        ctx.violation(key, case, detail)
+    ctx.count("cases/oset-predicates")
     for seq in ([], [1], [1, 1], [1, 2], [2, 1], [2, 1, 2, 3, 1], list(range(5)) * 2):
         for form in ("list", "tuple", "iter", "gen", "dict", "set"):
             ctx.count("cases/unique_list")
@@ -100,10 +103,16 @@ def run(ctx, deep=False):
     # ------------------------------------------------------------ IdentitySet
     cases, impl_out, reqs = [], [], []
     hangs[0] = 0
-    for i in range(5000 if thorough else 1000):
+    import itertools
+
+    ikinds = ("list", "tuple", "iter", "gen", "values", "keys", "idset") if thorough else ("list", "tuple", "iter", "values", "keys", "idset")
+    rand = ((i, L.is_gen_sequence(ctx.rng, maxlen=14 if thorough else 10)) for i in range(5000 if thorough else 1000))
+    # then the seed-independent small-scope block: every binary operation / comparison x every
+    # argument sequence with duplicated references x every argument kind
+    exh = ((10 ** 6, x) for x in L.is_exhaustive_single(kinds=ikinds, universe=3, maxarg=3))
+    for i, (nregs, ops) in itertools.chain(rand, exh):
         if hangs[0] >= 2:
             break
-        nregs, ops = L.is_gen_sequence(ctx.rng, maxlen=14 if thorough else 10)
         trace, req, fail = L.is_run_sequence(ns, nregs, ops)
         line = "idset %d %s" % (nregs, " ".join(req))
         ctx.case(line, nontrivial=any(o["op"] not in ("new", "copy", "len", "contains") for o in ops))
@@ -272,6 +281,9 @@ def replay(ctx, obj):
         import random
 
         fails = [f for f in L.misc_helper_checks(random.Random(0), 300) if f[1]["name"] == c["name"]]
+        trace, req, fail = [], [], ((fails[0][0], fails[0][2]) if fails else None)
+    elif kind == "oset-pred":
+        fails = [f for f in L.os_predicate_checks(ns) if f[1] == c]
         trace, req, fail = [], [], ((fails[0][0], fails[0][2]) if fails else None)
     elif kind == "unique_list":
         got, alias, ufail = L.unique_list_check(ns, c.get("form", "list"), c["seq"])
